@@ -73,6 +73,12 @@ CHECKS["C13"] = {
     "text": "(a) For every operation of the real finalized plans (optimize on and off) of rechunks, stores (existing/sharded/region/path), multi-output ops and catalogue operations, num_tasks equals the length of the task iterable, tasks are distinct, the plan total is the sum and create-arrays creates each lazy array once. (b) see C07 harness: per operation one start, num_tasks task-ends, one end, in order, for every schedule in the bound.",
     "note": _GEOM_NOTE + " Event part uses stubs/sched.py (asyncio.wait/Future/aiostream contracts).",
 }
+CHECKS["C14"] = {
+    "engine": "sx",
+    "technique": "bounded symbolic execution (z3) of the real rechunk planner functions on integer proxies (exact rational model of true division)",
+    "text": "consolidate_chunks (1-2 dims quick, 3 thorough; sizes up to 10**6, budgets up to 2**40; chunk_limits None/-1/explicit): ValueError iff the chunks exceed max_mem, otherwise result within [chunks, upper bound], aligned with the source chunks, within max_mem, and no AssertionError. Both multistage planners: explicit ValueError iff the request is infeasible, otherwise a non-empty chained stage list whose every read/intermediate/write chunk fits max_mem, intermediate = min(read, write), last write chunks a multiple of the target chunks (or the full extent), regular variant aligned with what the previous stage wrote - 1-d fully symbolic (sizes <= 200/1000), 2-d incl. reachable multi-stage plans with geometry forked by value and symbolic budgets. rechunk_plan/_rechunk_plan/rechunk on metadata arrays: copy ops start at the array's chunking, are chained, end at the requested chunking; data part of every accepted copy fits the derived budget. Termination: AST side condition (no while loops, finite for-loops, single guarded recursion) + per-path step budget.",
+    "note": "int/int true division modelled as exact rationals (lemma: operands < 2**53); np.geomspace = real NumPy on value-forked endpoints; 2-d obligations fork geometry by value because products of two symbolic extents did not finish in z3 (>600 s); >3 dims, ExcessiveIOWarning heuristics and multspace's docstring claim (multspace(40,40,2) == [1,39], an efficiency glitch recorded in DESIGN.md) are outside.",
+}
 for p in PENDING:
     if p not in CHECKS:
         NOT_APPLICABLE[p] = "check not built yet in this revision (planned, see DESIGN.md §5)"
